@@ -55,6 +55,11 @@ def gen_case(rng):
         if rng.random() < 0.5:
             # a well-formed multi-byte UTF-8 sequence: not ASCII either (a decoder switched to UTF-8 would accept it)
             mal = ['name2', rng.randrange(n), rng.randrange(0, 7), rng.choice([0xC3A9, 0xCEA9, 0xD0B6])]
+    elif r < 0.32 and n:
+        # a size or offset field with bit 31 set (fields are unsigned 32-bit; offsets stay multiples of 0x200): reported as stored
+        mal = ['wide', rng.randrange(n), rng.choice(['size', 'offset']), rng.choice([0x80000000, 0x80000200, 0xFFFFFE00, 0xC0000000 + 0x200 * rng.randrange(1000)])]
+        if mal[2] == 'size':
+            mal[3] = rng.choice([mal[3], 0xFFFFFFFF, 0x80000001])
     return dict(files=files, slots=slots, start=start, mal=mal, pseed=rng.randrange(1 << 30))
 
 
@@ -69,6 +74,9 @@ def run_case(ctx, mr, case):
         if mal[0] == 'offset':
             off = int.from_bytes(img[16 * slot + 8:16 * slot + 12], 'little') + mal[2]
             img[16 * slot + 8:16 * slot + 12] = off.to_bytes(4, 'little')
+        elif mal[0] == 'wide':
+            fo = 8 if mal[2] == 'offset' else 12
+            img[16 * slot + fo:16 * slot + fo + 4] = mal[3].to_bytes(4, 'little')
         elif mal[0] == 'name2':
             pos = min(mal[2], max(0, len(files[mal[1]][0]) - 1), 6)
             img[16 * slot + pos:16 * slot + pos + 2] = mal[3].to_bytes(2, 'big')
@@ -81,7 +89,7 @@ def run_case(ctx, mr, case):
     bio = io.BytesIO(prefix + img + b'TRAILER')
     bio.seek(case['start'])
     exp_err = None
-    if mal:
+    if mal and mal[0] != 'wide':
         exp_err = 'Pyctr11' if mal[0] == 'offset' else 'Pyctr12'
     try:
         r = ExeFSReader(bio, closefd=False)
@@ -105,6 +113,17 @@ def run_case(ctx, mr, case):
        (err is None and sorted(map(repr, mres)) != sorted(map(repr, got))):
         ctx.diff('corr', 'exefs-parse-model', case, str(mres)[:200], str(impl)[:200], 'ExeFS header: Coq model and reader disagree')
     ctx.stat('malformed' if mal else 'wellformed')
+    if mal and mal[0] == 'wide':
+        ctx.stat('wide_fields')
+        if err:
+            ctx.diff('oracle', 'exefs-open-raises', case, 'a reader', err, f'ExeFS whose {mal[2]} field has bit 31 set rejected with {err}')
+            return
+        want = sorted((n, mal[3] if (i == mal[1] and mal[2] == 'offset') else info[n]['offset'], mal[3] if (i == mal[1] and mal[2] == 'size') else info[n]['size'], info[n]['hash'])
+                      for i, (n, _) in enumerate(files))
+        if sorted(got) != want:
+            ctx.diff('oracle', 'exefs-entries', case, str(want)[:300], str(sorted(got))[:300], f'an entry whose {mal[2]} field is {mal[3]:#x} is not reported as stored')
+        r.close()
+        return
     if mal:
         if err != exp_err:
             # a corrupted name byte that happens to stay ASCII / offset landing on a multiple is not an error
